@@ -14,7 +14,7 @@ from . import error
 from . import utils
 from .utils import DEFAULT
 from ..helper.number import to_number
-from .._compat import string_types
+from .._compat import string_types, integer_types
 
 
 @dispatcher.register_for('ABS')
@@ -298,6 +298,11 @@ def POWER(number, power):
     power = utils.parse_number(power)
     if utils.any_is_error((number, power)):
         return error.VALUE
+    if (isinstance(number, integer_types) and isinstance(power, integer_types) and
+            abs(number) > 1 and power > 0 and (abs(number).bit_length() - 1) * power >= 1024):
+        # an exact integer power of at least 2**1024: beyond the range of XL numbers
+        # (and Python would spend unbounded time and memory on its digits)
+        return error.NUM
     result = number**power
     if math.isnan(result):
         return error.NUM
